@@ -325,7 +325,7 @@ func allZeroRows(w *World, l *LState, keys []string) bool {
 	return false
 }
 
-const ruleC21 = "histories (postings creates, reverts, metadata writes), then per history 8 paginated walks: resource in {transactions by id, logs by id, accounts by address, volumes by account, volumes grouped by 1-2 address segments}, page size 1-4, both orders, optional generated filter, optional PIT; next cursors are followed to the end and previous cursors back to the first page; the concatenation must equal the reference list in order without duplicate or omission, and previous of page k must be page k-1; non-trivial = walk of >= 3 pages; distinct = by walk description + history"
+const ruleC21 = "histories (postings creates, reverts, metadata writes), then per history 8 paginated walks: resource in {transactions by id, logs by id, accounts by address, volumes by account, volumes grouped by 1-2 address segments}, page size 1-4, both orders, optional generated filter, optional PIT, plus 2 walks of the volumes of a generated window (pit / oot, either date mode, page size 1-3) compared with the fold; next cursors are followed to the end and previous cursors back to the first page; the concatenation must equal the reference list in order without duplicate or omission, and previous of page k must be page k-1; non-trivial = walk of >= 3 pages; distinct = by walk description + history"
 
 const ruleC21Large = "large listings: a ledger is loaded with 105-260 transactions (one new account each, a few assets, some metadata and reverts), then 6 walks as above with page sizes drawn from {50, 99, 100, 101, 102, 128, 150, n-1, n, n+1, 1000} (n = number of transactions), so that pages larger than 100 items, the page boundary at the last item and single-page answers are all reached; non-trivial = walk with a page size above 100 over more than 101 entities; distinct = by walk description + size"
 
@@ -368,6 +368,30 @@ func TestC21Large(t *testing.T) {
 	})
 }
 
+// windowedVolumesWalk lists the volumes of a window (pit / oot, either date mode) page by page with a small page size:
+// every page must come from the same result set as the first one, so any disagreement with the fold - a row listed
+// twice, missing, or carrying the amounts of another window - counts for C21 here.
+func (w *World) windowedVolumesWalk(t *rapid.T, l *LState) bool {
+	if !l.Has(features.FeatureMovesHistory, "ON") || len(l.M.Txs) == 0 {
+		return false
+	}
+	pit := w.genPIT(t, l)
+	var oot *time.Time
+	if rapid.IntRange(0, 2).Draw(t, "withStart") == 0 {
+		oot = w.genPIT(t, l)
+		if oot.After(*pit) {
+			pit, oot = oot, pit
+		}
+	}
+	useInsertionDate := rapid.Bool().Draw(t, "insertionDate")
+	ps := uint64(rapid.IntRange(1, 3).Draw(t, "windowPageSize"))
+	focus := w.Focus
+	w.Focus = nil
+	w.CheckVolumes(l, pit, oot, useInsertionDate, rapid.IntRange(0, 1).Draw(t, "windowGroup"), ps)
+	w.Focus = focus
+	return true
+}
+
 func TestC21(t *testing.T) {
 	st := stats.New("C21", "exploration", ruleC21, assumePgsim, "entities whose filter evaluation falls in the class of known finding C20-null-under-not make the walk's content comparison be skipped (cursor mechanics are still checked)")
 	defer st.Write(t)
@@ -381,6 +405,11 @@ func TestC21(t *testing.T) {
 			st.Case(fmt.Sprint(i, res, pages)+strings.Join(l.Ops, "\n"), pages >= 3, func() any {
 				return map[string]any{"resource": res, "pages": pages, "history_len": len(l.Ops)}
 			}, "resource:"+res, fmt.Sprintf("pages:%d", min(pages, 6)))
+		}
+		for i := 0; i < 2; i++ {
+			if w.windowedVolumesWalk(rt, l) {
+				st.Class("windowed-volumes-walk")
+			}
 		}
 		st.Add("completed_checks", 1)
 	})
